@@ -120,6 +120,8 @@ fn main() {
     let mut rng = Rng::new(seed);
     let mut req = fs::File::create(out.join("req.txt")).unwrap();
     let mut imp = fs::File::create(out.join("impl.txt")).unwrap();
+    // which case every request line belongs to (a case may have several lines): lets the checker re-run one case
+    let mut case_of = fs::File::create(out.join("case.txt")).unwrap();
     let mut hist: BTreeMap<String, usize> = BTreeMap::new();
     let mut distinct: HashSet<String> = HashSet::new();
     let mut samples: Vec<String> = Vec::new();
@@ -143,6 +145,7 @@ fn main() {
         for (rl, il) in c.req.lines().zip(c.imp.lines()) {
             writeln!(req, "{rl}").unwrap();
             writeln!(imp, "{il}").unwrap();
+            writeln!(case_of, "{i}").unwrap();
         }
         assert_eq!(c.req.lines().count(), c.imp.lines().count(), "case {i}: req/impl line mismatch");
         // runs that do not end take long each; three of them are evidence enough — stop early
